@@ -24,8 +24,8 @@ def key_of(clause, label, prog, tr, l):
             return "obs:%s:delayed_retry_in_timer_heap_at_crash" % clause
         if rec.get("buffered_retry"):
             return "obs:%s:due_retry_in_tick_buffer_at_crash" % clause
-    if clause in ("resumed_run_fails", "resumed_run_never_finishes", "resumed_result_differs", "resumed_state_store_differs") \
-            and rec["k"] >= 1000:
+    if clause in ("resumed_run_fails", "resumed_run_never_finishes", "resumed_result_differs", "resumed_state_store_differs",
+                  "persisted_history_not_replayable") and rec["k"] >= 1000:
         # cause feature: the process that stopped was itself a RESUMED one -- its ticks were appended to the log of the first
         # process, recorded against the state as its start-up rewind had laid it out
         return "obs:%s:second_stop_tick_log_spans_a_resume:k=%d" % (clause, rec["k"])
